@@ -19,7 +19,7 @@ open NasdaqModel GenHistory
 
 /-! ## bookkeeping of the live generator objects -/
 
-theorem getGen_setGen_same (l : List (Nat × GenObj)) (k : Nat) (g : GenObj) : getGen (setGen l k g) k = some g := by
+private theorem getGen_setGen_same (l : List (Nat × GenObj)) (k : Nat) (g : GenObj) : getGen (setGen l k g) k = some g := by
   induction l with
   | nil => simp [setGen, getGen]
   | cons e rest ih =>
@@ -28,7 +28,7 @@ theorem getGen_setGen_same (l : List (Nat × GenObj)) (k : Nat) (g : GenObj) : g
     · simp [setGen, getGen, hj]
     · simp [setGen, getGen, hj, ih]
 
-theorem getGen_setGen_other (l : List (Nat × GenObj)) (j k : Nat) (g : GenObj) (h : j ≠ k) :
+private theorem getGen_setGen_other (l : List (Nat × GenObj)) (j k : Nat) (g : GenObj) (h : j ≠ k) :
     getGen (setGen l j g) k = getGen l k := by
   induction l with
   | nil => simp [setGen, getGen, h]
@@ -65,7 +65,7 @@ def keepsGen (k : Nat) : Ev → Bool
   | .construct j _ => j != k
   | _ => true
 
-theorem getGen_step (sem : Semantics) (w : World) (k : Nat) (e : Ev) (h : keepsGen k e = true) :
+private theorem getGen_step (sem : Semantics) (w : World) (k : Nat) (e : Ev) (h : keepsGen k e = true) :
     getGen (step sem w e).st.gens k = getGen w.st.gens k := by
   cases e with
   | newProcess => simp [keepsGen] at h
@@ -84,7 +84,7 @@ theorem getGen_step (sem : Semantics) (w : World) (k : Nat) (e : Ev) (h : keepsG
     simp only [step, generate]
     cases getGen w.st.gens j <;> rfl
 
-theorem getGen_run (sem : Semantics) (k : Nat) (evs : List Ev) (h : evs.all (keepsGen k) = true) (w : World) :
+private theorem getGen_run (sem : Semantics) (k : Nat) (evs : List Ev) (h : evs.all (keepsGen k) = true) (w : World) :
     getGen (run sem w evs).st.gens k = getGen w.st.gens k := by
   induction evs generalizing w with
   | nil => rfl
@@ -96,7 +96,7 @@ theorem getGen_run (sem : Semantics) (k : Nat) (evs : List Ev) (h : evs.all (kee
 /-! ## the first half -/
 
 /-- What `construct` does, spelled out. -/
-theorem construct_eq (sem : Semantics) (w : World) (k : Nat) (i : Inv) :
+private theorem construct_eq (sem : Semantics) (w : World) (k : Nat) (i : Inv) :
     construct sem w k i =
       match (planGen sem w.st i).2 with
       | .error e => (⟨(planGen sem w.st i).1, w.fs⟩, .error e)
